@@ -149,6 +149,53 @@ Definition http_resolve (h : http_result) : res answer :=
       end
   end.
 
+(* RevocationStatus.UnmarshalJSON / decodeMTP (verifiable/credential.go, mtp_json.go).
+   The JSON text of the body, once its syntax and member types are accepted by
+   encoding/json (not modelled), is a `wire_status`: the issuer members and the "mtp"
+   member - absent/null, or its three members as written: the existence flag, the
+   siblings (a null sibling is None) and node_aux.  decodeMTP refuses more than 240
+   siblings and a null sibling; otherwise flag, siblings and node_aux are taken over
+   INDEPENDENTLY of each other; an absent/null "mtp" leaves the zero Proof. *)
+Record wire_mtp := mkwm {
+  w_ex : bool;
+  w_sibs : list (option Z);
+  w_aux : option (option Z * option Z)
+}.
+Record wire_status := mkws { w_issuer : tree_state; w_mtp : option wire_mtp }.
+
+Definition EMtpMany : string := "mtp-too-many-siblings"%string.
+Definition EMtpNull : string := "mtp-null-sibling"%string.
+Definition max_mtp_siblings : nat := 240.
+
+Fixpoint all_some (l : list (option Z)) : option (list Z) :=
+  match l with
+  | [] => Some []
+  | None :: _ => None
+  | Some x :: r => match all_some r with Some t => Some (x :: t) | None => None end
+  end.
+
+Definition decode_mtp (w : option wire_mtp) : res rproof :=
+  match w with
+  | None => Ok (mkrp false [] None)
+  | Some m =>
+      if Nat.ltb max_mtp_siblings (List.length (w_sibs m)) then Err EMtpMany
+      else match all_some (w_sibs m) with
+           | None => Err EMtpNull
+           | Some ss => Ok (mkrp (w_ex m) ss (w_aux m))
+           end
+  end.
+
+Definition decode_status (w : wire_status) : res answer :=
+  p <- decode_mtp (w_mtp w) ;; Ok (mkans (w_issuer w) p).
+
+(* json.Unmarshal(body, &out) in IssuerResolver.Resolve: None = encoding/json refused the
+   text (syntax, member types, a sibling that is not a field element in decimal) *)
+Definition parse_status_body (w : option wire_status) : option answer :=
+  match w with
+  | None => None
+  | Some ws => match decode_status ws with Ok a => Some a | _ => None end
+  end.
+
 (* IssuerResolver as a registry entry: what the transport did is `h` *)
 Definition http_resolver (h : http_result) : resolver :=
   fun _ => match http_resolve h with Ok a => Some a | _ => None end.
